@@ -220,7 +220,7 @@ func isStructList(t reflect.Type) bool {
 
 // envOf: the assignments of a test. For sparse list values, unaddressed positions produce no assignment.
 func envOf(t test) (map[string]string, bool) {
-	if t.val.K == conflib.Seq && isStructList(t.typ) && len(t.val.Items) > 0 {
+	if t.class == "list-item" && t.val.K == conflib.Seq && isStructList(t.typ) && len(t.val.Items) > 0 {
 		et := t.typ
 		for et.Kind() == reflect.Pointer {
 			et = et.Elem()
